@@ -65,6 +65,19 @@ def run(tier, seed, work, replay):
     cov["negative_controls"] = NEGS
     n, depth = (40, 30) if tier == "quick" else (400, 45)
     traces = systematic() + simulate(work, n, depth, seed)
+    # every history with an outage once more with a primary that is DOWN AND SAYS SO (refuses at once) instead of hanging
+    import copy
+    more = []
+    for t in traces:
+        if any(st.get("op") == "outage" for st in t["steps"]):
+            t2 = copy.deepcopy(t)
+            t2["origin"] = t.get("origin", "simulate") + "+refusing"
+            for st in t2["steps"]:
+                if st.get("op") == "outage":
+                    st["mode"] = "refuse"
+            more.append(t2)
+    traces = traces + more
+    cov["histories_with_refusing_primary"] = len(more)
     E.log("%d histories" % len(traces))
     cpath = work.path("cases.ndjson")
     E.write_ndjson(cpath, traces)
